@@ -171,6 +171,8 @@ def coq_ops(ops):
             out.append(f'Next {zlit(o[1])}')
         elif o[0] == 'reset':
             out.append('Reset')
+        elif o[0] == 'rest':
+            out.append('Rest')
         else:
             out.append('Query')
     return listlit(out)
@@ -188,6 +190,14 @@ def run_impl(cfg, fs, ops):
         if o[0] == 'next':
             try:
                 a = f.next(o[1])
+                res.append(['next', [float(v) for v in np.asarray(a, dtype=float)]])
+            except ValueError:
+                res.append(['raise', 'ValueError'])
+        elif o[0] == 'rest':
+            # get_samples_remaining(): the count it passes to next() is whatever n_samples_remaining() returns
+            # (a NumPy float for FixedWaveform), so this also exercises non-int draw counts
+            try:
+                a = f.get_samples_remaining()
                 res.append(['next', [float(v) for v in np.asarray(a, dtype=float)]])
             except ValueError:
                 res.append(['raise', 'ValueError'])
@@ -336,7 +346,7 @@ def compare(cfg, fs, reg, ops, res, mo):
         return f'cannot decode model output: {e}'
     if res and res[0][0] == 'ctor-raise':
         return None if (dec and dec[0][0] == 'raise') else f'constructor raised but model says {dec[:1]}'
-    n_max = sum(o[1] for o in ops if o[0] == 'next')
+    n_max = sum(o[1] for o in ops if o[0] == 'next') + 400 * sum(1 for o in ops if o[0] == 'rest')
     ev = Evaluator(reg, n_max)
     tol = 1e-12 if has_fir(cfg) else 0.0
     for i, (o, r) in enumerate(zip(ops, res)):
